@@ -24,9 +24,11 @@ type sigRec struct {
 
 // harness drives one real machine and the reference model side by side.
 type harness struct {
-	noMoreCandidates bool     // C01: a state with another participant count was force-staged
+	noMoreCandidates bool                  // C01: a state with another participant count was force-staged
+	other            *channel.StateMachine // the machine left behind by the last clone op: must never change again
+	otherSnap        []byte
 	refCur           *channel.State // own deep copy of the current state, taken before a candidate is derived
-	lastChecked      gen.Succ // the last candidate that passed CheckUpdate (same object)
+	lastChecked      gen.Succ       // the last candidate that passed CheckUpdate (same object)
 	prop             string
 	n, own           int
 	appKind          int
@@ -109,9 +111,11 @@ func (h *harness) inLedger(signer int, stateEnc []byte, sig wallet.Sig) bool {
 }
 
 // snapshot is the harness's own encoding of everything observable.
-func (h *harness) snapshot() []byte {
+func (h *harness) snapshot() []byte { return h.snapshotOf(h.m) }
+
+func (h *harness) snapshotOf(m *channel.StateMachine) []byte {
 	var b bytes.Buffer
-	fmt.Fprintf(&b, "ph=%d|", h.m.Phase())
+	fmt.Fprintf(&b, "ph=%d|", m.Phase())
 	wtx := func(tx channel.Transaction) {
 		if tx.State == nil {
 			b.WriteString("nil|")
@@ -129,8 +133,8 @@ func (h *harness) snapshot() []byte {
 		}
 		b.WriteString("|")
 	}
-	wtx(h.m.StagingTX())
-	wtx(h.m.CurrentTX())
+	wtx(m.StagingTX())
+	wtx(m.CurrentTX())
 	return b.Bytes()
 }
 
@@ -408,6 +412,15 @@ func (h *harness) refValid(c gen.Succ) (bool, string) {
 }
 
 func (h *harness) do(st *kernel.Step) {
+	h.doOp(st)
+	if h.other != nil && st.Op != "clone" && h.res.Violation == nil {
+		if !bytes.Equal(h.otherSnap, h.snapshotOf(h.other)) {
+			h.fail(h.prop+".operation-changed-another-machine", "%s on one machine changed the machine it was cloned from (or its clone)", st.Op)
+		}
+	}
+}
+
+func (h *harness) doOp(st *kernel.Step) {
 	before := h.snapshot()
 	op := st.Op
 	switch op {
@@ -744,8 +757,16 @@ func (h *harness) do(st *kernel.Step) {
 			h.fail(h.prop+".panic@clone", "Clone panicked: %v", err)
 			return
 		}
-		h.m = c
-		if !bytes.Equal(before, h.snapshot()) {
+		// the program goes on with one of the two machines; the other one is
+		// kept and must never change again (an operation on one machine is an
+		// operation on that machine only)
+		if kernel.Derive(uint64(h.step), "clone-keeps")%2 == 0 {
+			h.other, h.m = h.m, c
+		} else {
+			h.other = c
+		}
+		h.otherSnap = h.snapshotOf(h.other)
+		if !bytes.Equal(before, h.snapshot()) || !bytes.Equal(before, h.otherSnap) {
 			h.fail(h.prop+".clone-differs", "a clone differs observably from its original")
 		}
 	case "restore":
